@@ -9,7 +9,39 @@ import (
 
 // C01: replies arrive in request order, exactly one per request.
 
-var c01Kinds = []string{"FA", "FB", "M2", "D2", "PING", "AUTH", "UNK", "ARITY"}
+var c01Kinds = []string{"FA", "FB", "M2", "D2", "PING", "AUTH", "UNK", "ARITY", "RA", "KA"}
+
+// keys whose owner A answers with a redirect to B (kind RA: -MOVED, kind KA: -ASK); B serves them
+var c01Moved = map[string]bool{}
+var c01Ask = map[string]bool{}
+
+func c01RedirectKey(kind string, pos, client int) string {
+	k := fmt.Sprintf("%s%d.%d", strings.ToLower(kind), pos, client)
+	for i := 0; ; i++ {
+		c := fmt.Sprintf("%s.%d", k, i)
+		if world.SpecSlot([]byte(c)) <= 5460 {
+			if kind == "RA" {
+				c01Moved[c] = true
+			} else {
+				c01Ask[c] = true
+			}
+			return c
+		}
+	}
+}
+
+func c01RedirectReply(w *world.World, bc *world.BConn, args [][]byte) ([]byte, int) {
+	if bc.Addr == AddrA && len(args) > 1 {
+		k := string(args[1])
+		if c01Moved[k] {
+			return []byte(fmt.Sprintf("-MOVED %d %s\r\n", world.SpecSlot(args[1]), AddrB)), 0
+		}
+		if c01Ask[k] {
+			return []byte(fmt.Sprintf("-ASK %d %s\r\n", world.SpecSlot(args[1]), AddrB)), 0
+		}
+	}
+	return nil, 0
+}
 
 func c01Req(kind string, pos int, client int) Req {
 	ka, kb := keysA[(pos+4*client)%len(keysA)], keysB[(pos+4*client)%len(keysB)]
@@ -32,6 +64,8 @@ func c01Req(kind string, pos int, client int) Req {
 		return ArityReq()
 	case "QUIT":
 		return QuitReq()
+	case "RA", "KA":
+		return GetReq(c01RedirectKey(kind, pos, client))
 	}
 	panic(kind)
 }
@@ -71,7 +105,7 @@ func c01Family(p []string) string {
 }
 
 func c01Scenario(pipes [][]string, oneChunk bool, bound int) *world.Scenario {
-	sc := &world.Scenario{Nodes: T3m(), Bound: bound, Horizon: 300}
+	sc := &world.Scenario{Nodes: T3m(), Bound: bound, Horizon: 300, Reply: c01RedirectReply}
 	var kinds [][]string
 	var names []string
 	fam := "F-only"
